@@ -89,6 +89,8 @@ type c18Prof struct {
 	Extra  bool   `json:"extra"`
 	// Missing: declared position whose part is absent (0: none)
 	Missing int `json:"missing"`
+	// Alias: kind of the per-part decoys named like a wrong reading of the reference
+	Alias string `json:"alias"`
 }
 
 type c18Case struct {
@@ -104,8 +106,18 @@ type c18Case struct {
 
 func c18Tok(id int) string { return fmt.Sprintf("w%03d", id) }
 
+// text of the special piece of a member name / of its spelling in a reference
+// (the tables of PartsOrder.tla, rendered)
+var c18SpText = map[string]string{"none": "", "space": " ", "plus": "+", "pct20": "%20", "pctz": "%z", "eacute": "\u00e9",
+	"paren": "(x)", "amp": "&", "pct2B": "%2B", "pctC3A9": "%C3%A9", "pct2520": "%2520", "pct25z": "%25z"}
+var c18EncText = map[string]string{"none": "", "sp20": "%20", "plusLit": "+", "plus2B": "%2B", "pct2520": "%2520", "pct25z": "%25z",
+	"eC3A9": "%C3%A9", "eRaw": "\u00e9", "paren": "(x)", "amp": "&"}
+
 func c18NameStr(n c18Name) string {
-	sp := map[string]string{"none": "", "space": " ", "plus": "+"}[n.Sp]
+	sp, ok := c18SpText[n.Sp]
+	if !ok {
+		panic("c18: unknown name piece " + n.Sp)
+	}
 	base := n.Stem + sp + strconv.Itoa(n.N) + "." + n.Ext
 	if len(n.Dir) == 0 {
 		return base
@@ -114,7 +126,10 @@ func c18NameStr(n c18Name) string {
 }
 
 func c18HrefStr(h c18Href) string {
-	enc := map[string]string{"none": "", "sp20": "%20", "plusLit": "+", "plus2B": "%2B"}[h.Enc]
+	enc, ok := c18EncText[h.Enc]
+	if !ok {
+		panic("c18: unknown spelling " + h.Enc)
+	}
 	s := h.Stem + enc + strconv.Itoa(h.N) + "." + h.Ext
 	if len(h.Segs) > 0 {
 		s = strings.Join(h.Segs, "/") + "/" + s
@@ -307,18 +322,15 @@ func c18Equal(a, b []int) bool {
 	return true
 }
 
-// c18Feature names the layout option of the case that distinguishes it from the
-// plainest package, for open errors / missing parts.
+// c18Feature lists the layout options of the case that could make a reader stumble, for open
+// errors / missing parts: "enc=paren,paths=dot,tgt=rel,opf=root". The check attributes a failure
+// to the option value whose cases ALL fail in the run (checks/c18.py _name_features).
 func c18Feature(c *c18Case) string {
-	switch {
-	case c.Prof.Enc != "none":
-		return c.Prof.Enc
-	case c.Prof.Paths != "std":
-		return c.Prof.Paths + "-paths"
-	case c.Prof.Tgt == "abs":
-		return "abs-target"
+	f := []string{"enc=" + c.Prof.Enc, "paths=" + c.Prof.Paths, "tgt=" + c.Prof.Tgt}
+	if c.Fmt == "epub" {
+		f = append(f, "opf="+c.Prof.Opf)
 	}
-	return "plain"
+	return "{" + strings.Join(f, ",") + "}"
 }
 
 // c18Classify compares a presented token sequence with the pages the contract
@@ -336,12 +348,19 @@ func c18Classify(c *c18Case, got []int) (string, string) {
 	for _, id := range got {
 		seen[id]++
 		if !wantSet[id] {
+			if id >= 100 { // record mode: alias decoy of part id-100
+				return "wrong-name:" + c.Prof.Enc, fmt.Sprintf("the undeclared member %q (token %s) is presented: it is what a wrong decoding (%s) of the reference %q denotes; the reference denotes %q",
+					c18PartName(c, id), c18Tok(id), c.Prof.Alias, c18HrefOf(c, id-100), c18PartName(c, id-100))
+			}
 			switch id {
 			case 90:
 				if c.Prof.Missing > 0 {
 					return "substituted:undeclared", fmt.Sprintf("declared part %d is absent from the archive; the undeclared member %s (token %s) is presented (in its place)", c.Prof.Missing, c18DecoyName(c), c18Tok(id))
 				}
 				return "leak:decoy", fmt.Sprintf("the undeclared member %s (token %s) is presented", c18DecoyName(c), c18Tok(id))
+			case 71, 72, 73, 74, 75, 76, 77, 78, 79, 80, 81:
+				return "wrong-name:" + c.Prof.Enc, fmt.Sprintf("the undeclared member %q (token %s) is presented: it is what a wrong decoding (%s) of the reference %q denotes; the reference denotes %q",
+					c18PartName(c, id), c18Tok(id), c.Prof.Alias, c18HrefOf(c, id-70), c18PartName(c, id-70))
 			case 91:
 				return "leak:not-in-spine", fmt.Sprintf("the manifest item that is not in the spine (token %s) is presented", c18Tok(id))
 			case c18NavTok:
@@ -393,6 +412,24 @@ func c18Classify(c *c18Case, got []int) (string, string) {
 		return "order:other", what
 	}
 	return "order:" + strings.Join(fits, "+"), what + " (the presented order is the " + strings.Join(fits, " / ") + " order)"
+}
+
+func c18PartName(c *c18Case, id int) string {
+	for _, p := range c.Parts {
+		if p.ID == id {
+			return c18NameStr(p.Name)
+		}
+	}
+	return "?"
+}
+
+func c18HrefOf(c *c18Case, id int) string {
+	for _, p := range c.Parts {
+		if p.ID == id {
+			return c18HrefStr(p.Href)
+		}
+	}
+	return "?"
 }
 
 func c18DecoyName(c *c18Case) string {
@@ -508,7 +545,10 @@ func c18Replay(i int, raw []byte) Result {
 	if err := json.Unmarshal(raw, &c); err != nil {
 		return fail("decode", "decode", err.Error(), nil)
 	}
-	res := Result{OK: true, Nontrivial: c18Nontrivial(&c), Key: c18Key(raw), Evals: 5}
+	res := Result{OK: true, Nontrivial: c18Nontrivial(&c), Key: c18Key(raw), Evals: 5, Clause: "feat:" + c.Fmt + ":" + c18Feature(&c)}
+	if c.Prof.Missing > 0 {
+		res.Clause = "" // open errors are not asserted there: keep these cases out of the attribution statistics
+	}
 	path, err := c18WriteCase(&c)
 	if err != nil {
 		panic(err)
